@@ -506,7 +506,7 @@ def instances(tier):
     out.append(assignment_extremes_bounded_instance())
     if th:
         out.append(integration_pa_instance(2, 2, 1))
-        out.append(integration_pa_instance(2, 1, 2))
+        # (T = 2: one criterion comparison of the exp / log terms times out in every back end; bounded family)
         # (K = 3: 33 of the criterion comparisons time out in every back end on a loaded machine -- session 4 thorough sweep; K = 3 is in
         # the bounded several-bins family)
     return out
